@@ -43,7 +43,7 @@ class Job:
     def __init__(self, name, source_text, entry, enforce=None, enforce_rec=None, replace=(),
                  loop_contracts=True, cbmc_flags=(), cc_flags=(), timeout=900,
                  expect_fail=(), backend="cbmc-sat-contracts", note="", bounded=None,
-                 must_have=(), nondet_static=False, split=0, split_procs=None):
+                 must_have=(), nondet_static=False, split=0, split_procs=None, unwind_fns=()):
         self.name = name; self.source_text = source_text; self.entry = entry
         self.enforce = enforce; self.enforce_rec = enforce_rec; self.replace = list(replace)
         self.loop_contracts = loop_contracts; self.cbmc_flags = list(cbmc_flags)
@@ -52,7 +52,7 @@ class Job:
         self.backend = backend; self.note = note; self.bounded = bounded
         self.must_have = list(must_have)          # obligation-name regexes that must be present (e.g. loop_invariant_step)
         self.nondet_static = nondet_static
-        self.split = split; self.split_procs = split_procs or NCORES
+        self.split = split; self.split_procs = split_procs or NCORES; self.unwind_fns = list(unwind_fns)
         self.check_flags = ["--bounds-check", "--pointer-check", "--signed-overflow-check", "--div-by-zero-check",
                             "--pointer-overflow-check"]
         # results
@@ -94,6 +94,16 @@ class Job:
             self.status = "error"; self.reason = "goto-instrument (checks) failed"; return self._fin(log, t0)
         cur = "c.gb"
         flags = ["--no-standard-checks", "--unwinding-assertions", "--slice-formula", "--trace"] + self.cbmc_flags
+        if self.unwind_fns:
+            # unwind only the named functions' remaining loops (library loops of the contract instrumentation are left alone)
+            rc, out = step("cbmc --show-loops %s" % cur, 120)
+            ids = re.findall(r"^Loop (\S+):", out, re.M)
+            us = []
+            for fn, k in self.unwind_fns:
+                us += ["%s:%d" % (i, k) for i in ids if re.match(r"^%s(_wrapped_for_contract_checking)?\.\d+$" % re.escape(fn), i)]
+            if not us:
+                self.status = "error"; self.reason = "no loop found to unwind for %s" % self.unwind_fns; return self._fin(log, t0)
+            flags += ["--unwindset", ",".join(us)]
         if self.split and self.split > 1:
             out, rc = self._run_split(d, cur, flags, log)
         else:
@@ -140,7 +150,7 @@ class Job:
             elif rc not in (0, 10) and worst != 124: worst = rc
         merged = "\n".join(allout)
         got = set(m.group("name") for m in RESULT_RE.finditer(merged))
-        if worst in (0, 10) and got != set(names):
+        if worst in (0, 10) and not set(names) <= got:   # (unwinding assertions appear only at run time)
             log.append("property partition mismatch: missing %s" % sorted(set(names) - got)[:5]); worst = 1
         return merged, worst
 
